@@ -276,6 +276,15 @@ def _trace_check(ctx):
             r = ('ok', recs)
         except Exception as e:   # noqa
             r = ('err', type(e).__name__)
+            if name != 'bogus':
+                from optiland.distribution import create_distribution
+                d = create_distribution(name)
+                d.generate_points(n, 0.0, 0.0)
+                if len(d.x) == 0:
+                    # uniform with 1 or 2 nodes per axis keeps no node (all outside the unit circle): Optic.trace
+                    # fails on the empty bundle AFTER the launch (record bookkeeping), which is outside this property
+                    res['histogram']['empty_sampling'] = res['histogram'].get('empty_sampling', 0) + 1
+                    continue
             res['histogram']['raised'][type(e).__name__] = res['histogram']['raised'].get(type(e).__name__, 0) + 1
         res['histogram']['by_name'][name] = res['histogram']['by_name'].get(name, 0) + 1
         cases.append((spec, o, name, n, Hy, w, r))
